@@ -188,6 +188,23 @@ func (h *harness) pipeCase(p pipePlan) {
 	if len(seen) != sent {
 		h.res.Violate(lib.Violation{Sig: "pipeline-item-not-processed-exactly-once", What: "a stage saw an item the source did not hand out", Replay: p})
 	}
+	for w, c := range s1.dones {
+		if c != 1 {
+			h.res.Violate(lib.Violation{Sig: "pipeline-done-not-called-once-per-worker",
+				What: fmt.Sprintf("stage 1 worker %d: Done called %d times (the migrations flush their last batch there)", w, c), Replay: p})
+			break
+		}
+	}
+	if s2.dones != 1 {
+		h.res.Violate(lib.Violation{Sig: "pipeline-done-not-called-once-per-worker", What: fmt.Sprintf("stage 2: Done called %d times", s2.dones), Replay: p})
+	}
+	for w, items := range s1.per {
+		for i := 1; i < len(items); i++ {
+			if items[i] <= items[i-1] {
+				h.res.Violate(lib.Violation{Sig: "pipeline-worker-sees-items-out-of-order", What: fmt.Sprintf("worker %d: %v", w, items), Replay: p})
+			}
+		}
+	}
 	if len(s2.got) != s1.sentOut {
 		h.res.Violate(lib.Violation{Sig: "pipeline-drops-output-of-earlier-stage",
 			What: fmt.Sprintf("stage 1 sent %d outputs, stage 2 received %d", s1.sentOut, len(s2.got)), Replay: p})
